@@ -230,7 +230,7 @@ Print Assumptions C11_barycentric_children.
 
 (* barycentric_refinement: six children per element (the library's order), each with the parent's orientation and a
    sixth of its area vector (so areas add up); old vertices kept; children inherit the domain index.
-   Not proved (correspondence only): the total number of vertices nv + n + number of edges. *)
+   (vertex count: C11_barycentric_vertex_count) *)
 Theorem C11_barycentric_partial : forall (vs : list vec) (els : list elem) (dom : list nat),
   in_range els (length vs) = true ->
   let b := barycentric (vs, els, dom) in let X := fun e k => vat vs (vget (el els e) k) in
@@ -244,6 +244,13 @@ Theorem C11_barycentric_partial : forall (vs : list vec) (els : list elem) (dom 
      veq (normal_dir (Y 0) (Y 1) (Y 2)) (vscale (1 # 6)%Q (normal_dir (X e 0) (X e 1) (X e 2)))).
 Proof. exact barycentric_correct. Qed.
 Print Assumptions C11_barycentric_partial.
+
+(* barycentric_refinement has exactly nv + n + (number of edges) vertices: one centroid per element, one midpoint
+   per edge (created once, by the first element that has the edge) -- for EVERY element list *)
+Theorem C11_barycentric_vertex_count : forall (vs : list vec) (els : list elem) (dom : list nat),
+  length (g_vs (barycentric (vs, els, dom))) = length vs + length els + length (edges els).
+Proof. exact barycentric_vertex_count. Qed.
+Print Assumptions C11_barycentric_vertex_count.
 
 (* grid_from_segments: exactly the elements with a listed domain index are kept, in order, with their domain
    indices; their vertices are renumbered injectively, keep their coordinates, and no unused vertex remains *)
